@@ -393,6 +393,19 @@ def model(m, s, fi, t, fk, args, site):
                     raise Stop("undecided", site, "iterator map closure outside the domain")
                 out.append(v)
             return Iter(out)
+    if n == "fold" and len(args) == 3 and (d.startswith("core::iter") or "Iterator" in d or "Iterator" in trait):
+        # a fold over a literal iteration space whose closure never forks: applied element by element (captured references are
+        # replaced by the values they designate, the closure cannot write through them anyway when it is `Fn`)
+        it = as_iter(m, s, args[0])
+        f = args[2]
+        if it is not None and isinstance(f, Adt) and str(f.name).startswith("closure:") and len(it.rest()) <= 64:
+            fz = Adt(f.name, f.variant, [m._freeze(s, x) for x in f.fields])
+            acc = m._freeze(s, A[1])
+            for x in it.rest():
+                acc = m.call_sync(s, fz, [acc, m._freeze(s, x) if isinstance(x, Ref) else x])
+                if acc == TOP:
+                    raise Stop("undecided", site, "fold closure outside the domain")
+            return acc
     if n in ("next", "next_back") and len(args) == 1 and isinstance(args[0], Ref):
         it = as_iter(m, s, A[0]) if not isinstance(A[0], Iter) else A[0]
         if it is not None:
